@@ -67,6 +67,9 @@ extern "C" int setitimer(__itimer_which_t which, const struct itimerval* nv, str
   // Time between reading the timer and re-arming it is lost to any
   // getitimer/setitimer client: measured, and granted to the lateness bound.
   if (!g_clock.in_handler && g_clock.last_get >= 0) { g_clock.total_lag += g_clock.now - g_clock.last_get; g_clock.last_get = -1; }
+  // Re-arming while an expiry is overdue but not yet delivered (jitter mode) cancels that delivery: the time since the
+  // expiry was reported as "1 microsecond remaining" by getitimer and is lost to the client as well; granted likewise.
+  if (!g_clock.in_handler && g_clock.armed && g_clock.now > g_clock.deadline) g_clock.total_lag += g_clock.now - g_clock.deadline;
   if (ov) {
     long rem = g_clock.armed ? g_clock.deadline - g_clock.now : 0;
     if (rem < 0) rem = 0;
